@@ -1,28 +1,32 @@
 From Coq Require Import String List Bool Arith.
-From Verif Require Import Base.Str Base.Run C06.Model C06.Spec.
+From Verif Require Import Base.Str Base.Run C06.Model C06.Spec C06.History.
 Import ListNotations.
 
 (* a case: the set-up of the receiver (how the option allow_unsolicited is written, how the configuration object was
    made), the delivery (binding the caller names, Response/@Destination, which assertions arrive encrypted, abstract
    Response and outstanding set; its allow_unsolicited field is a placeholder: the model puts there what the code
    makes of the option, the spec what the option says), the Method each SubjectConfirmation names (per assertion, per
-   confirmation; [] = bearer throughout) and the verdict observed on the real Saml2Client.parse_authn_request_response *)
-Definition case := (setup * delivery_m * verdict)%type.
+   confirmation; [] = bearer throughout), the verdict observed on the real Saml2Client.parse_authn_request_response, and
+   the HISTORY: what the same process handled before the Response was delivered (History.v; [] = the long-lived client
+   of the worker process, which handled other cases' authentication Responses only) *)
+Definition case := (history * (setup * delivery_m * verdict))%type.
 
-Definition mk (b : binding) (d : destination) (fl : list bool) (mss : list (list cm)) (s : setup) (out : list (string * string))
+Definition mk (h : history) (b : binding) (d : destination) (fl : list bool) (mss : list (list cm)) (s : setup) (out : list (string * string))
   (irt : option string) (version : nat * nat) (top : string) (second : option string)
   (assertions : list assertion_in) (obs : verdict) : case :=
-  (s, {| base := {| via := b; dest := d; sealed := fl;
+  (h, (s, {| base := {| via := b; dest := d; sealed := fl;
                     resp := {| allow_unsolicited := false; outstanding := out; irt := irt; version := version; status_top := top;
                                status_second := second; assertions := assertions |} |};
-         methods := mss |}, obs).
+         methods := mss |}, obs)).
 
-Definition c_setup (c : case) : setup := fst (fst c).
-Definition c_delivery_m (c : case) : delivery_m := snd (fst c).
+Definition c_history (c : case) : history := fst c.
+Definition c_setup (c : case) : setup := fst (fst (snd c)).
+Definition c_delivery_m (c : case) : delivery_m := snd (fst (snd c)).
 Definition c_delivery (c : case) : delivery := base (c_delivery_m c).
+Definition c_verdict (c : case) : verdict := snd (snd c).
 
-Definition agrees (c : case) : bool := verdict_eqb (receive_cfg_m (c_setup c) (c_delivery_m c)) (snd c).
-Definition holds (c : case) : bool := spec_cm_b (c_setup c) (c_delivery_m c) (snd c).
+Definition agrees (c : case) : bool := verdict_eqb (receive_h (c_history c) (c_setup c) (c_delivery_m c)) (c_verdict c).
+Definition holds (c : case) : bool := spec_h_b (c_history c) (c_setup c) (c_delivery_m c) (c_verdict c).
 
 (* an assertion that arrives encrypted has a confirmation whose data does not answer the request the Response answers *)
 Definition sealed_stray (y : delivery) : bool :=
@@ -41,7 +45,7 @@ Definition cls (c : case) : nat :=
   | None => 0
   | Some b =>
       let y := configure b (c_delivery c) in
-      if negb (browser (via y)) || correlated_b (resp y) (snd c) then 0
+      if negb (browser (via y)) || correlated_b (resp y) (c_verdict c) then 0
       else if misread (opt (c_setup c)) then 4
       else if partial_match y then 3
       else if sealed_stray y then 2 else 0
@@ -52,9 +56,9 @@ Definition explain (c : case) :=
   let s := c_setup c in
   let y := configure (match meaning (opt s) with Some b => b | None => false end) (c_delivery c) in
   let x := resp y in
-  (receive_cfg_m s (c_delivery_m c), receive_cfg s (c_delivery c), receive_cfg_v0 s (c_delivery c),
+  (receive_h (c_history c) s (c_delivery_m c), receive_h_shared (c_history c) s (c_delivery_m c), receive_cfg_m s (c_delivery_m c), receive_cfg s (c_delivery c), receive_cfg_v0 s (c_delivery c),
    receive_m_bearer (configure_m (match meaning (opt s) with Some b => b | None => false end) (c_delivery_m c)), (meaning (opt s), effective_allow (opt s), misread (opt s)),
    (browser (via y), well_addressed y, partial_match y, cls c),
-   (correlated_b x (snd c), every_data_answers_b x (snd c), status_respected_b x (snd c), shape_respected_b x (snd c),
-    accepted_when_fine_m_b (configure_m (match meaning (opt s) with Some b => b | None => false end) (c_delivery_m c)) (snd c),
-    status_raised_when_fine_b x (snd c))).
+   (correlated_b x (c_verdict c), every_data_answers_b x (c_verdict c), status_respected_b x (c_verdict c), shape_respected_b x (c_verdict c),
+    accepted_when_fine_m_b (configure_m (match meaning (opt s) with Some b => b | None => false end) (c_delivery_m c)) (c_verdict c),
+    status_raised_when_fine_b x (c_verdict c))).
